@@ -566,6 +566,7 @@ async fn run_case(line: &str) -> String {
 	let mut out: Vec<String> = Vec::new();
 	if !warm_up(&mut case, &mode, max).await {
 		out.push("T-warmup".into());
+		case.wait = WAIT_DEGRADED;
 	}
 	// the warm-up call is not one of the script's handler invocations
 	let base_total = shared.total.load(SeqCst);
